@@ -105,6 +105,13 @@ def evaluate(ctx, rep, pdb2sql, cases, record=True):
                 rin, din, dlines = case['ref'], case['decoy'], case['decoy']
             def call():
                 sim = SS(din, rin)
+                if case.get('prime_cutoff') is not None:
+                    # repeated use of ONE StructureSimilarity object: an earlier call with another cutoff must not
+                    # influence this one ("any cutoff"; computations depend on their arguments only)
+                    try:
+                        (sim.compute_fnat_fast if case['route'] == 'fast' else sim.compute_fnat_pdb2sql)(cutoff=case['prime_cutoff'])
+                    except Exception:
+                        pass
                 v = sim.compute_fnat_fast(cutoff=cutoff) if case['route'] == 'fast' else sim.compute_fnat_pdb2sql(cutoff=cutoff)
                 return ['OK', fnat_value(v)]
             impl = run_impl(call)
@@ -233,6 +240,21 @@ def make_decoy(rng, ref, kind):
             if not any(a['chain'] == c for a in keep):
                 keep.append(next(a for a in dec if a['chain'] == c))
         dec = keep
+    if 'collapse' in kind:
+        # an unrefined decoy: the whole complex somewhere else in space, and a few heavy atoms of one chain placed
+        # exactly ON atoms of the other chain (distance 0.000, legal on the 3-decimal grid) — the closest possible
+        # contact, which any distance computation must still count
+        off = [rng.randint(20000, 150000) for _ in range(3)]
+        for a in dec:
+            for k, s in zip('xyz', off):
+                a[k] += s
+        A = [a for a in dec if a['chain'] == chains[0] and not a['name'].startswith('H')]
+        B = [a for a in dec if a['chain'] == chains[-1] and not a['name'].startswith('H')]
+        if A and B:
+            for _ in range(rng.randint(2, 8)):
+                a, b = rng.choice(A), rng.choice(B)
+                for k in 'xyz':
+                    b[k] = a[k]
     if 'noH' in kind:
         d2 = [a for a in dec if not a['name'].startswith('H')]
         if all(any(a['chain'] == c for a in d2) for c in chains):
@@ -266,7 +288,7 @@ def gen_fnat_cases(rng, n, big):
                     a[c] = int(round(a[c] / 125.0)) * 125
         if float(cutoff) in EXACT and rng.random() < 0.6:
             plant_exact_pair(rng, ref, float(cutoff), heavy=True)
-        kinds = [['same'], ['move'], ['delete'], ['move', 'delete'], ['noH'], ['move', 'noH', 'delete']]
+        kinds = [['same'], ['move'], ['delete'], ['move', 'delete'], ['noH'], ['move', 'noH', 'delete'], ['collapse'], ['collapse', 'delete']]
         if tie_only:
             kinds = [['rename'], ['honly', 'move'], ['dropchain'], ['same'], ['move']]
         for kind in (kinds if big else rng.sample(kinds, min(len(kinds), 3))):
@@ -276,7 +298,10 @@ def gen_fnat_cases(rng, n, big):
             rl, dl = to_lines(ref), to_lines(dec)
             for route in ('fast', 'sql'):
                 as_file = rng.random() < 0.3
-                cases.append({'fn': 'fnat', 'ref': rl, 'decoy': dl, 'cutoff': cutoff, 'route': route, 'as_file': as_file})
+                cs = {'fn': 'fnat', 'ref': rl, 'decoy': dl, 'cutoff': cutoff, 'route': route, 'as_file': as_file}
+                if rng.random() < 0.2:
+                    cs['prime_cutoff'] = rng.choice([3.0, 8.0, 12.0, 4.0]); dist['object-reused-with-other-cutoff'] += 1
+                cases.append(cs)
             dist['decoy=' + '+'.join(kind)] += 1
         dist['lattice-0.125' if lattice else 'grid-0.001'] += 1
         dist[f'cutoff={cutoff}'] += 1
